@@ -80,7 +80,7 @@ def run(ctx):
     reg = cap[0].lhs.canon() if cap else 'active_pid'
     for nm, pid in strobes.items():
         a = sites[nm]
-        ok = q.atoms(a) == {(RXA, False)} and a.rhs.canon() == '%d == %s' % (pid, reg)
+        ok = q.atoms(a) == {(RXA, False), ('%d == %s' % (pid, reg), True)} and q.is_one(a.rhs)
         ctx.ob('C04.strobe', 'USBHandshakeDetector.' + nm, ok, a.loc, 'detected.%s = (PID == %s) at packet end only: %s' % (nm, bin(pid), q.fmt(a)))
         dflt = [x for x in q.clears(d, 'self.detected.' + nm) if not x.guard and x.state is None and x.order < a.order]
         ctx.ob('C04.strobe-default', 'USBHandshakeDetector.%s.default' % nm, len(dflt) == 1, a.loc, 'strobe defaults to 0 each cycle')
